@@ -7,7 +7,7 @@ PAYLOADS = [b'', b'x', b'- removed looks', b'+ added looks', b'-- a/file',
             b'++ b/file', b'@@ -1 +1 @@', b'@@ -1,2 +3,4 @@ ctx', b' ',
             b'\\ No newline at end of file', b'#.change:', b'\x00\xff',
             b'tab\there', b'trailing \r', b'diff --git a b', b'---', b'+++',
-            b'%d %s %(line)r', b'100%']
+            b'%d %s %(line)r', b'100%', b'L' * 1500]
 
 GARBAGE = [b'diff --git a/x b/x', b'index 123..456 100644', b'--- a/file',
            b'+++ b/file', b'Index: file', b'====', b'', b'garbage',
@@ -142,7 +142,11 @@ def gen_diff(rng, ignore_garbage, max_hunks=6):
 
 
 ILLEGAL = [b'', b'x', b'xyz', b'@@ garbage', b'@@', b'\\ No newline',
-           b'\tcontext with tab', b'\\', b'#', b'\x00', b'No newline']
+           b'\tcontext with tab', b'\\', b'#', b'\x00', b'No newline',
+           MARKER + b'.orig', MARKER + b'x', MARKER[:-1], b'x' + MARKER,
+           b'\\ no newline at end of file', b'x' * 1025, b'y' * 5000,
+           b'@@ -1 +1 @@' + b'z' * 1100 + b' not a header @',
+           b'%d %s %(line)r']
 
 
 def damages(rng, lines, spans, expected, ignore_garbage):
